@@ -28,7 +28,8 @@ ASSUMPTIONS = [
     "For BAM the written bytes are therefore compared only when both modes wrote; a write that raises on the parsed side is the tolerant class 'bam-write-unsupported'.",
 ]
 REQUIRED_CLASSES = ["chunked", "whole", "access-index-replace-concat-write", "concat-second-operand-replaced", "concat-after-access-on-first",
-                    "setattr", "int-index", "typed-info", "bam", "bam-write-selection", "bam-observe-after-write", "bam-get-then-write", "bam-same-length-permutation"]
+                    "setattr", "int-index", "typed-info", "bam", "bam-write-selection", "bam-observe-after-write", "bam-get-then-write", "bam-same-length-permutation",
+                    "mask-as-python-list"]
 BOUNDS = {"quick": "300 programs of up to 10 steps for each of 8 text format variants, files of up to 8 records; 400 BAM programs on files of up to 6 records",
           "thorough": "8000 programs of up to 25 steps per text variant, files of up to 25 records; 9600 BAM programs on files of up to 16 records"}
 BUDGET_S = {"quick": 200, "thorough": 1500}
@@ -299,6 +300,8 @@ def classify(case):
             cl.append(c)
     if case.get("info_decl"):
         cl.append("typed-info")
+    if any(op["op"] == "mask" and op.get("as_list") for op in prog):
+        cl.append("mask-as-python-list")
     return bool(has_index_after_access and has_repl_or_concat), sorted(set(cl))
 
 
@@ -317,8 +320,9 @@ def op_strategy(fmt):
         st.builds(lambda s, i: {"op": "int", "src": s, "i": i}, src, st.integers(0, 40)),
         st.builds(lambda s, a, b, c: {"op": "slice", "src": s, "start": a, "stop": b, "step": c}, src,
                   st.one_of(st.none(), small), st.one_of(st.none(), small), st.one_of(st.none(), st.sampled_from([1, 2, -1, -2, 3]))),
-        st.builds(lambda s, b: {"op": "mask", "src": s, "bits": [int(x) for x in b]}, src, st.lists(st.booleans(), min_size=1, max_size=8)),
-        st.builds(lambda s, i: {"op": "ilist", "src": s, "idx": i}, src, st.lists(st.integers(0, 40), max_size=6)),
+        st.builds(lambda s, b, al: {"op": "mask", "src": s, "bits": [int(x) for x in b], **({"as_list": 1} if al else {})}, src,
+                  st.lists(st.booleans(), min_size=1, max_size=8), st.integers(0, 3).map(lambda v: v == 0)),
+        st.builds(lambda s, i, al: {"op": "ilist", "src": s, "idx": i, **({"as_list": 1} if al else {})}, src, st.lists(st.integers(0, 40), max_size=6), st.integers(0, 3).map(lambda v: v == 0)),
         st.builds(lambda s, k: {"op": "perm", "src": s, "seed": k}, src, st.integers(0, 20)),
         st.builds(lambda s, t: {"op": "concat", "src": s, "src2": t}, src, src),
         st.builds(lambda s, t: {"op": "concat", "src": s, "src2": t}, src, src),
@@ -338,8 +342,9 @@ def ops_of_kind(fmt, *kinds):
         "tolist": st.just({"op": "tolist", "src": -1}),
         "slice": st.builds(lambda a, b, c: {"op": "slice", "src": -1, "start": a, "stop": b, "step": c},
                            st.one_of(st.none(), small), st.one_of(st.none(), small), st.one_of(st.none(), st.sampled_from([1, 2, -1, -2]))),
-        "mask": st.builds(lambda b: {"op": "mask", "src": -1, "bits": [int(x) for x in b]}, st.lists(st.booleans(), min_size=1, max_size=8)),
-        "ilist": st.builds(lambda i: {"op": "ilist", "src": -1, "idx": i}, st.lists(st.integers(0, 40), min_size=1, max_size=6)),
+        "mask": st.builds(lambda b, al: {"op": "mask", "src": -1, "bits": [int(x) for x in b], **({"as_list": 1} if al else {})},
+                          st.lists(st.booleans(), min_size=1, max_size=8), st.integers(0, 3).map(lambda v: v == 0)),
+        "ilist": st.builds(lambda i, al: {"op": "ilist", "src": -1, "idx": i, **({"as_list": 1} if al else {})}, st.lists(st.integers(0, 40), min_size=1, max_size=6), st.integers(0, 3).map(lambda v: v == 0)),
         "replace": st.builds(lambda f, sd: {"op": "replace", "src": -1, "field": f, "seed": sd}, st.sampled_from(sorted(c04.REPL[fmt])), st.integers(0, 999)),
         "setattr": st.builds(lambda f, sd: {"op": "setattr", "src": -1, "field": f, "seed": sd}, st.sampled_from(sorted(c04.REPL[fmt])), st.integers(0, 999)),
         "concat": st.builds(lambda t, first: {"op": "concat", "src": -1 if first else t, "src2": t if first else -1}, st.integers(0, 12), st.booleans()),
